@@ -477,6 +477,8 @@ class BaseClient:
             info["type"] = "dir" if link_dst[i] == "/" else "file"
             info["link_dst"] = link_dst
             s = link_src
+        if not s:
+            raise ValueError("no file name")
         return pathlib.PurePosixPath(s), info
 
     def parse_list_line_windows(self, b):
@@ -511,7 +513,7 @@ class BaseClient:
         # whitespace, but if we were to try to detect such a condition
         # we would have to make strong assumptions about the input format
         filename = line[next_space:].lstrip()
-        if filename == "." or filename == "..":
+        if not filename or filename == "." or filename == "..":
             raise ValueError
         return pathlib.PurePosixPath(filename), info
 
